@@ -465,6 +465,36 @@ func (p *Prog) GlobalInitBoxed(g *ssa.Global) bool {
 	return n == 1 && ok
 }
 
+// GlobalInitRegex returns the pattern text of an immutable package-level *regexp.Regexp variable that is assigned exactly
+// once, in its package initialiser, with regexp.MustCompile(<constant>).
+func (p *Prog) GlobalInitRegex(g *ssa.Global) (string, bool) {
+	if g.Pkg == nil || !p.ImmutableGlobal(g) {
+		return "", false
+	}
+	found, n, ok := "", 0, false
+	for _, m := range g.Pkg.Members {
+		fn, isF := m.(*ssa.Function)
+		if !isF || !strings.HasPrefix(fn.Name(), "init") {
+			continue
+		}
+		for _, b := range fn.Blocks {
+			for _, in := range b.Instrs {
+				if st, isSt := in.(*ssa.Store); isSt && st.Addr == ssa.Value(g) {
+					n++
+					if call, isC := st.Val.(*ssa.Call); isC {
+						if callee := call.Common().StaticCallee(); callee != nil && callee.String() == "regexp.MustCompile" && len(call.Common().Args) == 1 {
+							if cv, isK := call.Common().Args[0].(*ssa.Const); isK && cv.Value != nil && cv.Value.Kind() == constant.String {
+								found, ok = constant.StringVal(cv.Value), true
+							}
+						}
+					}
+				}
+			}
+		}
+	}
+	return found, n == 1 && ok
+}
+
 // GlobalInitConst returns the integer constant an immutable package-level variable is initialised with.
 func (p *Prog) GlobalInitConst(g *ssa.Global) (string, bool) {
 	if g.Pkg == nil || !p.ImmutableGlobal(g) {
